@@ -6,16 +6,16 @@ from ai_edge_quantizer.algorithms.uniform_quantize import uniform_quantize_tenso
 from vf.monitors import contracts, fpflags
 
 LEVEL = 'exploration'
-RULE = ('case ids < 540: the full grid {4,8,16 bit} x {sym,asym} x 9 magnitudes (1e-12..3e38) x '
+RULE = ('case ids < 840: the full grid {4,8,16 bit} x {sym,asym} x 14 magnitudes (denormals 1e-300, 1.4e-45, 1e-40 .. 3e38) x '
         '{two-sided, positive, negative, point, zero} x {float32,float64}, each with ALL integer codes of the '
-        'width (exhaustive over codes) and 257 random in-range values; id 540: the repository\'s own test suite run with the contracts attached; larger ids: (every 8th) the public calibrate/quantize pipeline on generated models so that the contracts observe the library\'s own calls, otherwise random tensors of rank 0-4 '
+        'width (exhaustive over codes) and 257 random in-range values; id 840: the repository\'s own test suite run with the contracts attached; larger ids: (every 8th) the public calibrate/quantize pipeline on generated models so that the contracts observe the library\'s own calls, otherwise random tensors of rank 0-4 '
         'with per-axis parameters on any dimension, permutation commutation, bias quantisation.  Contracts '
         '(icontract post-conditions) run on every library call.  distinct by (bits, symmetry, magnitude, '
         'kind, dtype | shape, axis); non-trivial iff the range is not the all-zero one')
 ASSUMPTIONS = ['inputs are finite by construction', 'tolerance: 0.51 step (half a step + float32 resolution of x/scale+zp) plus 2^-21*|x|',
                'bias: |q - b/s| <= 0.5 + |b/s|*2^-20 (float32 product in the library)']
 
-MAGS = [1e-12, 1e-6, 1e-4, 1e-2, 1.0, 1e3, 1e10, 1e30, 3e38]
+MAGS = [1e-300, 1.4e-45, 1e-40, 1e-37, 1e-30, 1e-12, 1e-6, 1e-4, 1e-2, 1.0, 1e3, 1e10, 1e30, 3e38]   # incl. denormals of float32 / float64
 KINDS = ['both', 'pos', 'neg', 'point', 'zero']
 DTS = [np.float32, np.float64]
 # half a step plus the float32 resolution of (x/scale + zero_point) at 16-bit magnitudes (2**-8 step)
